@@ -863,7 +863,7 @@ func (ev *Evaluator) binop(op string, l, r Value) (Value, *ctrl) {
 			return FloatV(a * b), nil
 		case "/":
 			if b == 0 {
-				return nil, ev.abort("float division by zero")
+				return nil, fatal("ValueError") // both backends: "Division by zero error" (since C04-013)
 			}
 			return FloatV(a / b), nil
 		case "**":
@@ -882,6 +882,8 @@ func (ev *Evaluator) binop(op string, l, r Value) (Value, *ctrl) {
 				return FloatV(1 / a), nil
 			case b == 0.5 && a >= 0:
 				return FloatV(math.Sqrt(a)), nil
+			case b == 0.5 && a < 0 && !math.IsInf(a, 0):
+				return FloatV(math.NaN()), nil // IEEE-754 pow: a finite negative base with a non-integral exponent
 			}
 			return nil, ev.abort("float pow")
 		case "<":
